@@ -696,3 +696,135 @@ Section SpecPosting.
         replace ((prev <=? fst dp)%Z && (fst dp <=? p_start p - 1)%Z) with false by lia. cbn [andb]. ring.
   Qed.
 End SpecPosting.
+
+(* ------------------------------------------------------------ Part E: assembly *)
+
+(* -- the partition -- *)
+Lemma np_loop_nonpos : forall fuel s iv last c e acc, (last <= 0)%Z ->
+  np_loop fuel s iv last c e acc = np_loop fuel s iv 0 c e acc.
+Proof.
+  induction fuel as [|f IH]; intros s iv last c e acc Hl; cbn [np_loop];
+    replace (0 <? last)%Z with false by lia; replace (0 <? 0)%Z with false by reflexivity;
+    rewrite !andb_false_r; [reflexivity|].
+  destruct (e <? s)%Z; cbn [orb]; [reflexivity|]. apply IH. exact Hl.
+Qed.
+
+Lemma new_partition_nonpos p iv n : (n <= 0)%Z -> new_partition p iv n = new_partition p iv 0.
+Proof.
+  intros Hn. unfold new_partition. destruct (p_start p =? 0)%Z; [reflexivity|].
+  destruct iv; try reflexivity; rewrite (np_loop_nonpos _ _ _ n) by exact Hn; reflexivity.
+Qed.
+
+Lemma np_loop_done fuel s iv last c e acc : (e <? s)%Z = true -> np_loop fuel s iv last c e acc = Some acc.
+Proof. intros H. destruct fuel; cbn [np_loop]; rewrite H; reflexivity. Qed.
+
+Lemma tiles_facts : forall ps s e, tiles s e ps ->
+  StronglySorted Z.lt (map p_start ps) /\
+  Forall (fun p => (s <= p_start p)%Z /\ (p_start p <= p_end p)%Z /\ (p_end p <= e)%Z) ps.
+Proof.
+  induction ps as [|p ps IH]; intros s e H; [destruct H|].
+  cbn [tiles] in H. destruct H as (Hs & Hle & Hrest). destruct ps as [|p2 ps].
+  - split; [repeat constructor|]. constructor; [lia|constructor].
+  - destruct (IH _ _ Hrest) as [I1 I2]. split.
+    + cbn [map] in *. constructor; [exact I1|].
+      rewrite Forall_forall in *. intros x Hx.
+      change (p_start p2 :: map p_start ps) with (map p_start (p2 :: ps)) in Hx.
+      apply in_map_iff in Hx. destruct Hx as (p' & <- & Hp'). specialize (I2 _ Hp'). lia.
+    + assert (He : (p_end p <= e)%Z) by (inversion I2 as [|? ? Hq _]; subst; lia).
+      constructor; [lia|]. eapply Forall_impl; [|exact I2]. cbn. intros x Hx. lia.
+Qed.
+
+Definition part_facts (part : partition) : Prop :=
+  StronglySorted Z.lt (start_dates part) /\
+  ((p_start (span part) <= p_end (span part))%Z ->
+   tiles (first_start (periods part) (p_start (span part))) (p_end (span part)) (periods part)
+   /\ (p_start (span part) <= first_start (periods part) (p_start (span part)))%Z).
+
+Lemma partition_facts P iv n part : new_partition P iv n = POk part -> part_facts part.
+Proof.
+  intros H. destruct (new_partition_span _ _ _ _ H) as [Hsp _]. unfold part_facts, start_dates. rewrite Hsp.
+  destruct P as [s e]. cbn [p_start p_end].
+  assert (Hs0 : s <> 0%Z) by (intros ->; cbn in H; discriminate).
+  destruct (interval_eqb iv Once) eqn:Eiv.
+  - destruct iv; try discriminate. rewrite partition_once in H by exact Hs0. inversion H; subst. cbn [periods map first_start p_start p_end tiles].
+    split; [repeat constructor|]. intros Hle. lia.
+  - assert (Hiv : iv <> Once) by (intros ->; discriminate).
+    destruct (Z_lt_ge_dec e s) as [Hlt|Hge].
+    + assert (Hps : periods part = []).
+      { unfold new_partition in H. cbn [p_start p_end] in H. destruct (s =? 0)%Z; [discriminate|].
+        destruct iv; try congruence; rewrite np_loop_done in H by lia; inversion H; reflexivity. }
+      rewrite Hps. split; [constructor|]. intros Hle. lia.
+    + assert (H0 : exists n', (0 <= n')%Z /\ new_partition (mkPeriod s e) iv n' = POk part).
+      { destruct (Z_le_gt_dec n 0) as [Hn|Hn]; [exists 0%Z; rewrite <- (new_partition_nonpos _ _ n Hn); split; [lia|exact H]|].
+        exists n. split; [lia|exact H]. }
+      destruct H0 as (n' & Hn' & H').
+      destruct (new_partition_tiles s e iv n' part Hiv ltac:(lia) Hn' H') as [Ht Hfs].
+      split; [|intros _; split; assumption].
+      exact (proj1 (tiles_facts _ _ _ Ht)).
+Qed.
+
+(* -- the builder with the period starts touched -- *)
+Lemma upd_day_dates_in days d f : (forall x, d_date (f x) = d_date x) ->
+  In d (dates (upd_day days d f)) /\ (forall x, In x (dates days) -> In x (dates (upd_day days d f))).
+Proof.
+  intros Hf. unfold dates. induction days as [|y days IH]; cbn [upd_day map].
+  - rewrite Hf. cbn [empty_day d_date]. split; [left; reflexivity|intros x []].
+  - destruct (d =? d_date y)%Z eqn:E1.
+    + apply Z.eqb_eq in E1. cbn [map]. rewrite Hf. split; [left; symmetry; exact E1|intros x Hx; exact Hx].
+    + destruct (d <? d_date y)%Z; cbn [map].
+      * rewrite Hf. cbn [empty_day d_date]. split; [left; reflexivity|intros x Hx; right; exact Hx].
+      * destruct IH as [I1 I2]. split; [right; exact I1|]. intros x [Hx|Hx]; [left; exact Hx|right; apply I2; exact Hx].
+Qed.
+
+Lemma touch_dates : forall dts days,
+  (forall x, In x dts -> In x (dates (fold_left (fun ds d => upd_day ds d (fun x => x)) dts days)))
+  /\ (forall x, In x (dates days) -> In x (dates (fold_left (fun ds d => upd_day ds d (fun x => x)) dts days))).
+Proof.
+  induction dts as [|d dts IH]; intros days; cbn [fold_left].
+  - split; [intros x []|intros x Hx; exact Hx].
+  - destruct (IH (upd_day days d (fun x => x))) as [I1 I2].
+    destruct (upd_day_dates_in days d (fun x => x) (fun x => eq_refl)) as [U1 U2].
+    split.
+    + intros x [<-|Hx]; [apply I2; exact U1|apply I1; exact Hx].
+    + intros x Hx. apply I2. apply U2. exact Hx.
+Qed.
+
+Lemma touch_sorted : forall dts days, Sorted Z.lt (dates days) ->
+  Sorted Z.lt (dates (fold_left (fun ds d => upd_day ds d (fun x => x)) dts days)).
+Proof.
+  induction dts as [|d dts IH]; intros days H; cbn [fold_left]; [exact H|].
+  apply IH. apply upd_day_sorted; [intros; reflexivity|exact H].
+Qed.
+
+(* -- the filter stage -- *)
+Definition filt (sp : period) (d : day) : day := if period_contains sp (d_date d) then d else set_txns d [].
+
+Lemma filt_date sp d : d_date (filt sp d) = d_date d.
+Proof. unfold filt. destruct (period_contains sp (d_date d)); reflexivity. Qed.
+
+Lemma filt_dates sp ds : dates (map (filt sp) ds) = dates ds.
+Proof. unfold dates. rewrite map_map. apply map_ext. intros d. apply filt_date. Qed.
+
+Lemma filt_dated sp ds : days_dated ds -> days_dated (map (filt sp) ds).
+Proof.
+  unfold days_dated. intros H. induction H as [|d ds Hd _ IH]; cbn [map]; constructor; [|exact IH].
+  unfold filt. destruct (period_contains sp (d_date d)); [exact Hd|constructor].
+Qed.
+
+Lemma filt_sum (f : Z * posting -> Q) sp ds : days_dated ds ->
+  qsum f (days_postings (map (filt sp) ds)) == qsum (fun dp => if in_span sp (fst dp) then f dp else 0) (days_postings ds).
+Proof.
+  intros Hd. unfold days_postings. induction Hd as [|d ds Hx _ IH]; cbn [map concat]; [reflexivity|].
+  rewrite !qsum_app, IH. apply Qplus_comp; [|reflexivity].
+  unfold filt. rewrite period_contains_in_span. destruct (in_span sp (d_date d)) eqn:E.
+  - apply qsum_ext. intros dp Hin. rewrite (day_postings_date d dp Hx Hin), E. reflexivity.
+  - unfold day_postings at 1. cbn [set_txns d_txns map concat]. unfold qsum at 1. cbn [fold_right].
+    symmetry. apply qsum_zero. intros dp Hin. rewrite (day_postings_date d dp Hx Hin), E. reflexivity.
+Qed.
+
+Lemma filt_in sp ds dp : In dp (days_postings (map (filt sp) ds)) -> In dp (days_postings ds).
+Proof.
+  unfold days_postings. induction ds as [|d ds IH]; cbn [map concat]; [intros []|].
+  intros H. apply in_app_or in H. apply in_or_app. destruct H as [H|H]; [left|right; apply IH; exact H].
+  unfold filt in H. destruct (period_contains sp (d_date d)); [exact H|destruct H].
+Qed.
